@@ -63,6 +63,9 @@ def et_configs(g, tier):
             if tag not in tags:
                 yield {"family": "ET", "tag": tag, "rated": 5000, "refused": [], "battery": 1}
     for tag in tags:
+        for rated in (14999, 15000, 24999, 25000):
+            yield {"family": "ET", "tag": tag, "rated": rated, "refused": [], "battery": 1}
+    for tag in tags:
         for rated in POWER_CLASSES:
             for k in range(len(ET_REFUSABLE) + 1):
                 for refused in itertools.combinations(ET_REFUSABLE, k):
